@@ -32,7 +32,24 @@ multiframe.frame-equals-single
                       of the case agree with the oracle, (b) all mismatching frames are not the first frame of their
                       thread's static chunk and (c) every mismatching value obeys the carry-over model
                       multi[f,i] = (multi[f-1,i] + count[f,i]) * 4*pi*R_i^2/n (rel 1e-5); anything else gets
-                      another key."""
+                      another key.
+
+Widening round (cases with id >= 10**6, `_wide_cases`; the stream above is unchanged).  Input classes added:
+n_sphere_points odd / prime / not divisible by 4 / 961 in the quick tier, given as numpy int32/int64 or as float;
+probe_radius 0.5 and 1.0 nm, given as numpy float32 / float64 or as the int 0; all arguments passed positionally;
+change_radii empty, complete (all 118 symbols), one huge (0.4-0.7 nm) or tiny (0.005-0.03 nm) radius, numpy scalars
+as values, a radius for the virtual-site element VS; atoms down to 0.021 nm apart ("tight": spheres inside spheres in
+a many-atom context); 1 200-2 500 (thorough: 6 000) atom systems; 30-257 frame trajectories whose atoms overlap only
+in the last 1-3 frames; OpenMP teams of 4, 7 and 16; topologies with everything in one residue, one atom per residue,
+one chain per residue, 7-40 atom residues; a (small) unit cell on the trajectory -- the documented areas take no
+periodic images, the oracle stays non-periodic; structures with ions / ligands / RNA / water only / virtual sites
+(1vii_sustiva_water, 4ZUO, 2koc, tip3p, imatinib, GG-tip4pew, 1am7); atom_indices as range, generator, set,
+frozenset, dict keys, int16 / uint32 arrays and a non-contiguous view; get_mapping together with atom_indices on the
+multi-frame call; monitors history.atom-count / history.residue: after all those calls the SAME Topology object is
+edited in place (element of an atom changed, insert_atom, delete_atom_by_index) and the next call is judged by the
+oracle; probe-type: numpy.float64 probe == python float probe.  Not added: residues whose atoms are not contiguous
+in index (Topology.atoms walks chains -> residues -> atoms and sasa.py, like the whole library, identifies that
+order with the index order), coincident atoms (outside the quantifier), invalid mode strings, negative indices."""
 from __future__ import annotations
 
 import ctypes
@@ -67,7 +84,7 @@ ASSUMPTIONS = [
     "OpenMP loops use the default static schedule of libgomp (thread t gets a contiguous block); team size is what "
     "omp_set_num_threads set (OMP_DYNAMIC=false)",
 ]
-FLOORS = {"quick": {"oracle.atom-count": 50000, "multiframe.frame-equals-single": 8000, "residue.sum-of-atoms": 25000,
+FLOORS = {"quick": {"history.atom-count": 2000, "history.residue": 500, "oracle.atom-count": 50000, "multiframe.frame-equals-single": 8000, "residue.sum-of-atoms": 25000,
                     "subset.kept-bit-identical": 7000, "subset.residue": 4000, "subset.unselected-minus-one": 500,
                     "mapping": 3500, "analytic.isolated": 1000, "analytic.two-sphere": 800, "radii.metamorphic": 500}}
 NCASES = {"quick": 3200, "thorough": 10000}
@@ -115,6 +132,56 @@ def _gen_cases(tier, seed):
             c["n_atoms"] = int(rng.integers(2, big if npts < 960 else 25))
         elif kind == "isolated":
             c["n_atoms"] = int(rng.integers(1, 6))
+        yield c
+    yield from _wide_cases(tier, seed)
+
+
+# ----- widening round: input classes the stream above never produces (ids >= 10**6; the stream above is unchanged) -----
+W_NPOINTS = [3, 5, 7, 30, 61, 97, 250, 961, 4, 12]      # odd / prime / not divisible by 4 / just above the default
+W_TEAMS = [1, 2, 4, 7, 16]
+W_PROTEINS = ["1vii_sustiva_water.pdb", "4ZUO.pdb", "2koc.pdb", "tip3p_300K_1ATM.pdb", "imatinib.pdb", "GG-tip4pew.pdb",
+              "1am7_protein.pdb", "2EQQ.pdb"]
+W_KINDS = ["cluster", "tight", "protein", "cluster", "isolated", "two", "late", "cluster", "protein", "tight", "lattice", "cluster"]
+
+
+def _wide_cases(tier, seed):
+    quick = tier == "quick"
+    n = 360 if quick else 3000
+    for j in range(n):
+        rng = common.rng_for("C13wide", seed, j)
+        kind = W_KINDS[j % len(W_KINDS)]
+        if kind == "lattice" and j % (48 if quick else 24) != 10:
+            kind = "cluster"  # the big systems are thinned: 10 per quick run, 125 per thorough run
+        npts = int(W_NPOINTS[(j // len(W_KINDS) + int(rng.integers(3))) % len(W_NPOINTS)])
+        probe = float(rng.choice([0.0, 0.14, 0.5, 1.0, round(float(rng.uniform(0, 0.3)), 4)]))
+        c = dict(i=10 ** 6 + j, seed=common.case_seed(seed, "C13w", j), kind=kind, n_points=npts, probe=probe,
+                 n_frames=int(rng.integers(1, 9)), threads=int(W_TEAMS[int(rng.integers(len(W_TEAMS)))]),
+                 change_radii=bool(rng.random() < 0.3),
+                 w=dict(cell=str(rng.choice(["none", "none", "cubic", "triclinic", "ortho"])),
+                        shaped=bool(rng.random() < 0.4),
+                        np_type=str(rng.choice(["int", "int", "np.int64", "np.int32", "float"])),
+                        probe_type=str(rng.choice(["float", "float", "np.float32", "np.float64", "int"])),
+                        cr_mode=str(rng.choice(["none", "none", "none", "empty", "complete", "big", "tiny", "np32"])),
+                        positional=bool(rng.random() < 0.3),
+                        derived=str(rng.choice(["none", "none", "slice", "slice-nocopy", "stride", "stride-nocopy", "fancy", "join", "xyz64", "vectors"]))))
+        if kind == "protein":
+            c["file"] = W_PROTEINS[int(rng.integers(len(W_PROTEINS)))]
+            c["max_atoms"] = 300 if quick else 460
+            c["n_points"] = min(npts, 61) if quick else npts
+            c["n_frames"] = int(rng.integers(1, 4))
+        elif kind in ("cluster", "tight"):
+            c["n_atoms"] = int(rng.integers(2, 41 if npts < 250 else 16))
+        elif kind == "isolated":
+            c["n_atoms"] = int(rng.integers(1, 6))
+        elif kind == "late":  # long trajectories: isolated atoms until the last 1-3 frames, where the atoms overlap
+            c["n_atoms"] = int(rng.integers(3, 10))
+            c["n_frames"] = int(rng.choice([30, 64, 101, 257]))
+            c["n_points"] = int(rng.choice([7, 30, 61]))
+        elif kind == "lattice":  # thousands of atoms
+            c["n_atoms"] = int(rng.integers(1200, 2501 if quick else 6001))
+            c["n_points"] = int(rng.choice([5, 10, 24]))
+            c["n_frames"] = int(rng.integers(1, 3))
+            c["probe"] = float(rng.choice([0.0, 0.14]))
         yield c
 
 
@@ -172,6 +239,49 @@ def _topology(rng, symbols):
     return top
 
 
+def _topology_shaped(rng, symbols):
+    """widened classes of residue/chain layout (atoms of a residue stay contiguous in index: Topology.atoms walks
+    chains -> residues -> atoms and the whole library identifies that order with the index order): everything in ONE
+    residue, one atom per residue, every residue in a chain of its own, or long residues of 7-40 atoms"""
+    import mdtraj as md
+    from mdtraj.core import element as elem
+    top = md.Topology()
+    na = len(symbols)
+    shape = ["one-residue", "atom-per-residue", "chain-per-residue", "long-residues"][int(rng.integers(4))]
+    chain = top.add_chain()
+    i = 0
+    while i < na:
+        k = {"one-residue": na, "atom-per-residue": 1, "chain-per-residue": int(rng.integers(1, 5)),
+             "long-residues": int(rng.integers(7, 41))}[shape]
+        if shape == "chain-per-residue" and i:
+            chain = top.add_chain()
+        res = top.add_residue(["ALA", "LIG", "HOH", "GLY"][int(rng.integers(4))], chain)
+        for _ in range(min(k, na - i)):
+            top.add_atom("X%d" % i, elem.get_by_symbol(symbols[i]), res)
+            i += 1
+    return top
+
+
+def _lattice_frame(rng, na, offset):
+    """jittered cubic lattice, spacing 0.13-0.3 nm, minimum separation >= 0.06 nm by construction"""
+    sp = float(rng.uniform(0.13, 0.3))
+    j = (sp - 0.06) / (2.0 * math.sqrt(3.0))
+    m = int(math.ceil(na ** (1.0 / 3.0)))
+    g = np.array([[a, b, c] for a in range(m) for b in range(m) for c in range(m)], dtype=np.float64)
+    g = g[rng.permutation(len(g))[:na]] * sp
+    return (g + rng.uniform(-j, j, g.shape) + offset).astype(np.float32)
+
+
+def _min_sep_chunked(x, chunk=256):
+    x = x.astype(np.float64)
+    best = np.inf
+    for a in range(0, len(x), chunk):
+        d = np.sqrt(((x[a:a + chunk, None, :] - x[None, :, :]) ** 2).sum(-1))
+        d[np.arange(len(d)), np.arange(a, a + len(d))] = np.inf
+        best = min(best, float(d.min()))
+    return best
+
+
 _ALL_EL = []
 
 
@@ -211,7 +321,32 @@ def _build(case):
     kind = case["kind"]
     nf = case["n_frames"]
     extra = {}
-    if kind == "cluster":
+    w = case.get("w") or {}
+    mktop = _topology_shaped if w.get("shaped") else _topology
+    if kind in ("tight", "late", "lattice"):
+        na = case["n_atoms"]
+        sym = _symbols(rng, na)
+        offset = rng.uniform(-20, 20, 3) if rng.random() < 0.3 else np.zeros(3)
+        if kind == "tight":  # neighbours down to 0.021 nm apart: spheres inside spheres in a many-atom context
+            xyz = np.array([_cluster_frame(rng, na, float(rng.uniform(0.03, 0.09)), offset, min_sep=0.021) for _ in range(nf)], dtype=np.float32)
+        elif kind == "late":
+            n_late = int(rng.integers(1, 4))
+            xyz = np.array([_cluster_frame(rng, na, 0.12 if f >= nf - n_late else 1.5, offset, min_sep=0.05 if f >= nf - n_late else 1.1)
+                            for f in range(nf)], dtype=np.float32)
+            extra["n_late"] = n_late
+        else:
+            xyz = np.array([_lattice_frame(rng, na, offset) for _ in range(nf)], dtype=np.float32)
+        t = md.Trajectory(xyz, mktop(rng, sym))
+    elif kind == "cluster" and w:
+        na = case["n_atoms"]
+        sym = _symbols(rng, na)
+        scale = float(rng.uniform(0.07, 0.3))
+        offset = rng.uniform(-20, 20, 3) if rng.random() < 0.3 else np.zeros(3)
+        xyz = np.array([_cluster_frame(rng, na, scale, offset) for _ in range(nf)], dtype=np.float32)
+        if rng.random() < 0.06:
+            sym[int(rng.integers(na))] = "VS"  # virtual site: mdtraj knows the element, the radii table does not
+        t = md.Trajectory(xyz, mktop(rng, sym))
+    elif kind == "cluster":
         na = case["n_atoms"]
         sym = _symbols(rng, na)
         scale = float(rng.uniform(0.07, 0.3))
@@ -225,8 +360,10 @@ def _build(case):
         sym = _symbols(rng, na)
         grid = rng.permutation(27)[:na]
         base = np.array([[g // 9, (g // 3) % 3, g % 3] for g in grid], dtype=np.float64) * 2.0  # 2 nm lattice
+        if w:
+            base = base * (1.2 + 1.3 * case["probe"])  # probes up to 1 nm: keep the atoms farther apart than R_i + R_j
         xyz = np.array([(base + rng.uniform(-0.3, 0.3, (na, 3)) + rng.uniform(-10, 10, 3)) for _ in range(nf)], dtype=np.float32)
-        t = md.Trajectory(xyz, _topology(rng, sym))
+        t = md.Trajectory(xyz, mktop(rng, sym))
     elif kind == "two":
         sym = _symbols(rng, 2)
         t = None  # built in run_two
@@ -261,10 +398,35 @@ def _build(case):
     cr = _change_radii(rng, sym, case)
     if "D" in sym and rng.random() < 0.5:
         cr = dict(cr or {}, D=0.12)
+    if "VS" in sym and rng.random() < 0.6:
+        cr = dict(cr or {}, VS=round(float(rng.uniform(0.02, 0.1)), 4))
+    if w.get("cell", "none") != "none":
+        # widened class: the trajectory carries a (small) unit cell; the documented areas take no periodic images
+        L, A = common.random_cell(rng, w["cell"], lo=0.4, hi=3.0)
+        t.unitcell_lengths = np.tile(L, (t.n_frames, 1)).astype(np.float32)
+        t.unitcell_angles = np.tile(A, (t.n_frames, 1)).astype(np.float32)
+    if w.get("derived", "none") != "none":
+        # widened class: the trajectory is obtained the way users obtain one (cut out of / strided from a longer one,
+        # with or without copying, joined from pieces, float64 coordinates assigned, cell assigned as box vectors);
+        # the oracle reads the coordinates of the object that is handed to mdtraj
+        t = common.derive_traj(t, w["derived"], common.rng_for("C13derive", case["seed"]))
     return t, sym, cr, rng, extra
 
 
 def _change_radii(rng, sym, case):
+    mode = (case.get("w") or {}).get("cr_mode", "none")
+    if mode != "none":
+        present = sorted(set(sym))
+        if mode == "empty":  # an empty dict: "partial" in the extreme
+            return {}
+        if mode == "complete":  # a complete dict: every element of the documented table restated with another value
+            return {k: round(v * float(rng.uniform(0.8, 1.25)), 4) for k, v in O.RADII.items()}
+        k = present[int(rng.integers(len(present)))]
+        if mode == "big":  # coarse-grained site: spheres that swallow whole neighbours
+            return {k: round(float(rng.uniform(0.4, 0.7)), 4)}
+        if mode == "tiny":
+            return {k: round(float(rng.uniform(0.005, 0.03)), 4)}
+        return {k: np.float32(rng.uniform(0.05, 0.3)), "Xx": np.float64(0.2)}  # numpy scalars as values
     if not case["change_radii"]:
         return None
     present = sorted(set(sym))
@@ -277,7 +439,21 @@ def _change_radii(rng, sym, case):
 # ----------------------------------------------------------------------------------------------- monitors
 def _sr(t, case, cr, **kw):
     import mdtraj as md
-    return md.shrake_rupley(t, probe_radius=case["probe"], n_sphere_points=case["n_points"], change_radii=cr, **kw)
+    w = case.get("w")
+    if not w:
+        return md.shrake_rupley(t, probe_radius=case["probe"], n_sphere_points=case["n_points"], change_radii=cr, **kw)
+    # widened classes: argument types (numpy scalars, a float point count, an int probe of 0) and positional passing
+    n = {"int": int, "np.int64": np.int64, "np.int32": np.int32, "float": float}[w["np_type"]](case["n_points"])
+    pr = case["probe"]
+    pr = {"float": float, "np.float32": lambda v: np.float32(v), "np.float64": np.float64,
+          "int": (lambda v: 0 if v == 0 else float(v))}[w["probe_type"]](pr)
+    if w["probe_type"] == "np.float32":
+        pr = np.float32(np.float64(case["probe"]))  # only probes exactly representable in float32 keep the oracle's value
+        if float(pr) != case["probe"]:
+            pr = case["probe"]
+    if w.get("positional"):
+        return md.shrake_rupley(t, pr, n, kw.get("mode", "atom"), cr, kw.get("get_mapping", False), kw.get("atom_indices", None))
+    return md.shrake_rupley(t, probe_radius=pr, n_sphere_points=n, change_radii=cr, **kw)
 
 
 def _judge_counts(ctx, area, R, lo, hi, n, label, sym):
@@ -362,7 +538,7 @@ def _check_residue_sum(ctx, monitor, key, res_out, atom_vals, resmap, nres, sele
     return bad is None
 
 
-def _subset(rng, na):
+def _subset(rng, na, wide=False):
     style = int(rng.integers(0, 6))
     if style == 0:
         idx = [int(rng.integers(na))]
@@ -378,6 +554,8 @@ def _subset(rng, na):
     else:
         idx = [] if rng.random() < 0.3 else list(range(na))
     container = ["list", "ndarray", "ndarray32", "list", "ndarray", "list", "ndarray", "ndarray32", "list", "tuple"][int(rng.integers(10))]
+    if wide:  # widened classes: every other kind of "iterable" of indices
+        container = ["range", "generator", "set", "frozenset", "int16", "uint32", "strided", "list", "tuple", "dict-keys"][int(rng.integers(10))]
     return [int(i) for i in idx], container, ["single", "half-sorted", "unsorted", "repeats", "range", "empty-or-all"][style]
 
 
@@ -388,13 +566,51 @@ def _as_container(idx, container):
         return np.array(idx, dtype=np.int32)
     if container == "tuple":
         return tuple(idx)
+    if container == "range" and (not idx or idx == list(range(idx[0], idx[-1] + 1))):
+        return range(idx[0], idx[-1] + 1) if idx else range(0)
+    if container == "generator":
+        return (i for i in idx)
+    if container == "set":
+        return set(idx)
+    if container == "frozenset":
+        return frozenset(idx)
+    if container == "dict-keys":
+        return dict.fromkeys(idx).keys()
+    if container == "int16":
+        return np.array(idx, dtype=np.int16)
+    if container == "uint32":
+        return np.array(idx, dtype=np.uint32)
+    if container == "strided":
+        return np.array([v for i in idx for v in (i, -1)], dtype=np.int64)[::2]
     return list(idx)
 
 
 def run_case(case, ctx):
     ctx.observe("kind", case["kind"])
-    ctx.observe("n_sphere_points", case["n_points"] if case["n_points"] in NPOINTS else "other")
-    ctx.observe("probe", "0" if case["probe"] == 0 else ("0.14" if case["probe"] == 0.14 else "random"))
+    ctx.observe("n_sphere_points", case["n_points"] if case["n_points"] in NPOINTS + W_NPOINTS else "other")
+    ctx.observe("probe", "0" if case["probe"] == 0 else (str(case["probe"]) if case["probe"] in (0.14, 0.5, 1.0) else "random"))
+    w = case.get("w") or {}
+    if w:
+        ctx.observe("n_sphere_points given as", w["np_type"])
+        ctx.observe("probe_radius given as", w["probe_type"])
+        ctx.observe("arguments passed", "positionally" if w["positional"] else "by keyword")
+        ctx.observe("change_radii class", w["cr_mode"])
+        ctx.observe("trajectory obtained by", w.get("derived", "none"))
+        if w["probe_type"] == "np.float64":
+            # a numpy float64 scalar IS a python float (subclass); the documented effect of the probe must not depend on it
+            import mdtraj as md
+            tiny = md.Trajectory(np.array([[[0, 0, 0], [0.15, 0, 0]]], dtype=np.float32), _topology(common.rng_for("C13tiny"), ["C", "O"]))
+            try:
+                a64 = md.shrake_rupley(tiny, probe_radius=np.float64(case["probe"]), n_sphere_points=case["n_points"])
+                a_py = md.shrake_rupley(tiny, probe_radius=float(case["probe"]), n_sphere_points=case["n_points"])
+                ctx.check(_same_bits(a64, a_py), "probe-type", "probe_radius:numpy-float64-scalar:result-differs-from-python-float",
+                          "probe_radius given as numpy.float64 gives other areas than the same value given as python float")
+            except ValueError as e:
+                ctx.violation("probe-type", "probe_radius:numpy-float64-scalar:raises:ValueError:buffer-dtype-mismatch",
+                              f"shrake_rupley(traj, probe_radius=numpy.float64({case['probe']})) raises ValueError: {e} "
+                              "(float32 radii + numpy float64 scalar promote to float64 under NumPy >= 2; a python float works)")
+                case = dict(case, w=dict(w, probe_type="float"))  # the rest of the case runs with the python float
+                w = case["w"]
     if case["kind"] == "two":
         return run_two(case, ctx)
     import mdtraj as md
@@ -408,7 +624,15 @@ def run_case(case, ctx):
     ctx.observe("change_radii", "yes" if cr else "no")
     if extra.get("file"):
         ctx.observe("protein", extra["file"])
-    sep = min(_min_sep(t.xyz[f]) for f in range(nf))
+    sep = min((_min_sep_chunked if na > 600 else _min_sep)(t.xyz[f]) for f in range(nf))
+    if w:
+        ctx.observe("n_atoms", "<=40" if na <= 40 else ("<=500" if na <= 500 else ">1000"))
+        ctx.observe("unit cell on the trajectory", w["cell"])
+        ctx.observe("residue layout", "one residue" if top.n_residues == 1 else ("atom per residue" if top.n_residues == na else
+                    ("chain per residue" if top.n_chains == top.n_residues else "mixed")))
+        ctx.observe("n_chains", min(top.n_chains, 4))
+        if case["kind"] == "late":
+            ctx.observe("overlaps appear only in the last frames of", nf)
     if sep < 0.02:
         ctx.skip("oracle.atom-count", "structure with (nearly) coincident atoms: outside the domain")
         return
@@ -511,8 +735,9 @@ def run_case(case, ctx):
     # ---- atom_indices subsets ---------------------------------------------------------------------------------
     minus1 = _bits(np.array([-1.0], np.float32))[0]
     for _ in range(2):
-        idx, container, style = _subset(rng, na)
-        ai = _as_container(idx, container)
+        idx, container, style = _subset(rng, na, wide=bool(w))
+        if container == "range" and not isinstance(_as_container(idx, container), range):
+            container = "list"
         ctx.observe("subset", f"{style}/{container}")
         mask = np.zeros(na, dtype=bool)
         mask[idx] = True
@@ -520,7 +745,7 @@ def run_case(case, ctx):
         failed = False
         for mode_ in ("atom", "residue"):
             try:
-                r_ = _sr(t[f0], case, cr, mode=mode_, atom_indices=ai)
+                r_ = _sr(t[f0], case, cr, mode=mode_, atom_indices=_as_container(idx, container))
             except Exception as e:  # valid indices of existing atoms: nothing to refuse
                 failed = True
                 if container == "tuple" and isinstance(e, IndexError):
@@ -580,6 +805,23 @@ def run_case(case, ctx):
     if nf - len(starts):
         ctx.observe("frame_position", "later-in-chunk", nf - len(starts))
     sub_idx, sub_cont, sub_style = _subset(rng, na)
+    if w:
+        # widened: get_mapping together with atom_indices on the whole multi-frame trajectory
+        set_team(T)
+        msel = np.zeros(na, dtype=bool)
+        msel[list(sub_idx)] = True
+        for mode in ("atom", "residue"):
+            plain = _sr(t, case, cr, mode=mode, atom_indices=list(sub_idx))
+            got = _sr(t, case, cr, mode=mode, atom_indices=list(sub_idx), get_mapping=True)
+            if not (isinstance(got, tuple) and len(got) == 2):
+                ctx.violation("mapping", f"get_mapping:{mode}:with-atom_indices:not-a-pair", f"returned {type(got).__name__}")
+                continue
+            ctx.check(_same_bits(got[0], plain), "mapping", f"get_mapping:{mode}:with-atom_indices:areas-differ-from-plain-call",
+                      f"areas returned with get_mapping=True and atom_indices differ from the same call without get_mapping ({nf} frames)")
+            expect_map = np.arange(na) if mode == "atom" else resmap
+            ctx.check(np.asarray(got[1]).shape == (na,) and np.array_equal(np.asarray(got[1]).astype(np.int64), expect_map), "mapping",
+                      f"get_mapping:{mode}:with-atom_indices:mapping-wrong", "mapping returned together with atom_indices is not the "
+                      f"{'atom index' if mode == 'atom' else 'residue index of each atom'}")
     variants = [("atom", None), ("residue", None), ("atom", sub_idx), ("residue", sub_idx)]
     atom_multi = None
     carry_confirmed = False
@@ -650,6 +892,79 @@ def run_case(case, ctx):
                 ctx.violation("multiframe.frame-equals-single", KNOWN_CARRY, what + " (residue sums of the carried-over atom values)", **detail)
             else:
                 ctx.violation("multiframe.frame-equals-single", "multiframe:residue:later-frame-differs-not-explained-by-carry-over", what, **detail)
+    if w and case["kind"] != "lattice":
+        _history(ctx, case, t, sym, cr, rng, f0)
+
+
+def _history(ctx, case, t, sym, cr, rng, f0):
+    """widened class: state that may live on the Topology object across calls.  shrake_rupley has been called on `t`
+    (same Topology object) many times; the topology is now edited IN PLACE through its public API (an atom's element
+    changed, an atom inserted, an atom deleted) and the next call on the same object is judged by the oracle."""
+    import mdtraj as md
+    from mdtraj.core import element as elem
+    top = t.topology
+    na = t.n_atoms
+    n = case["n_points"]
+    edit = ["element", "insert", "delete"][int(rng.integers(3))]
+    if top.n_bonds and edit == "delete":
+        edit = "element"  # delete_atom_by_index leaves the bonds of the atom behind: not a clean topology
+    if na < 2 and edit == "delete":
+        edit = "insert"
+    j = int(rng.integers(na))
+    if edit == "delete" and top.atom(j).residue.n_atoms < 2:
+        edit = "element"  # an emptied residue is refused by residue mode ("contiguous integer indices"): documented
+    x = t.xyz[f0].astype(np.float64)
+    sym2 = list(sym)
+    if edit == "element":
+        new = [e for e in COMMON_EL + ["Cl", "Na", "Rb"] if e != sym[j]][int(rng.integers(len(COMMON_EL) + 2))]
+        top.atom(j).element = elem.get_by_symbol(new)
+        sym2[j] = new
+    elif edit == "insert":
+        new = COMMON_EL[int(rng.integers(len(COMMON_EL)))]
+        res = top.atom(j).residue
+        rindex = [a.index for a in res.atoms].index(j)
+        top.insert_atom("XI", elem.get_by_symbol(new), res, index=j, rindex=rindex)
+        v = rng.normal(size=3)
+        x = np.insert(x, j, x[j] + 0.11 * v / np.linalg.norm(v), axis=0)
+        sym2.insert(j, new)
+    else:
+        top.delete_atom_by_index(j)
+        x = np.delete(x, j, axis=0)
+        del sym2[j]
+    ctx.observe("in-place topology edit between calls", edit)
+    x32 = x.astype(np.float32)[None]
+    if _min_sep(x32[0]) < 0.02:
+        ctx.skip("history.atom-count", "inserted atom (nearly) coincides with another")
+        return
+    try:
+        R = O.expanded_radii(sym2, case["probe"], cr)
+    except KeyError:
+        ctx.skip("history.atom-count", "element without a documented radius")
+        return
+    t2 = md.Trajectory(x32, top)  # the SAME Topology object
+    out = _sr(t2, case, cr)
+    if out.shape != (1, len(sym2)):
+        ctx.violation("history.atom-count", "after-in-place-topology-edit:shape", f"shape {out.shape} for {len(sym2)} atoms after {edit}")
+        return
+    lo, hi = O.reference_counts(x32[0], R, n)
+    a = out[0].astype(np.float64)
+    cnt = a / O.area_per_point(R, n)
+    ci = np.round(cnt)
+    decided = ~((lo == 0) & (hi == n))
+    bad = decided & ((np.abs(cnt - ci) > 32 * O.EPS32 * np.maximum(ci, 1.0)) | (ci < lo) | (ci > hi))
+    if bad.any():
+        k = int(np.argmax(bad))
+        ctx.violation("history.atom-count", f"after-in-place-topology-edit:{edit}:areas-do-not-follow-the-edited-topology",
+                      f"after {edit} on the Topology object used by earlier calls: atom {k} ({sym2[k]}, R={R[k]:.4f}) has area {a[k]:.8g} = "
+                      f"{cnt[k]:.4f} points of 4piR^2/n, the reference for the edited topology admits {lo[k]}..{hi[k]} of {n}",
+                      edit=edit, atom=k, edited_atom=j)
+    ctx.ok("history.atom-count", int((decided & ~bad).sum()))
+    res_out = _sr(t2, case, cr, mode="residue")
+    if res_out.shape != (1, top.n_residues):
+        ctx.violation("history.residue", "after-in-place-topology-edit:residue-mode:shape", f"shape {res_out.shape} for {top.n_residues} residues")
+        return
+    _check_residue_sum(ctx, "history.residue", f"after-in-place-topology-edit:{edit}:residue-mode:not-sum-of-atom-mode", res_out[0], out[0],
+                       _residue_index(top), top.n_residues, np.ones(len(sym2), dtype=bool), f"after {edit}")
 
 
 def run_two(case, ctx):
